@@ -58,13 +58,14 @@ func (g *GlobalTransactionManager) Begin(ctx context.Context, timeout time.Durat
 		log.Errorf("GlobalBeginRequest  error %v", err)
 		return err
 	}
-	if res == nil || res.(message.GlobalBeginResponse).ResultCode == message.ResultCodeFailed {
+	resp, ok := res.(message.GlobalBeginResponse)
+	if !ok || resp.ResultCode == message.ResultCodeFailed {
 		log.Errorf("GlobalBeginRequest result is empty or result code is failed, res %v", res)
 		return fmt.Errorf("GlobalBeginRequest result is empty or result code is failed.")
 	}
 	log.Infof("GlobalBeginRequest success, res %v", res)
 
-	SetXID(ctx, res.(message.GlobalBeginResponse).Xid)
+	SetXID(ctx, resp.Xid)
 	return nil
 }
 
